@@ -92,6 +92,13 @@ theorem numMutual_spec (s : State) (h : Hash) (nbrs : List Peer) :
       | true => exact absurd (this.mp hx) hq
     simp [h2, hq]
 
+/-- for a duplicate-free neighbour list (production lists are the keys of the handshake's
+remote-bitfield map) the count is the number of distinct connected neighbours -/
+theorem mutual_counts_distinct (s : State) (h : Hash) (nbrs : List Peer) (hn : nbrs.Nodup) :
+    (nbrs.filter fun q => (lookup s h q).isSome).Nodup ∧
+    numMutual s h nbrs = (nbrs.filter fun q => (lookup s h q).isSome).length :=
+  ⟨List.Nodup.sublist List.filter_sublist hn, rfl⟩
+
 /-- a successful `AddPending` is exactly: room, new peer, not too many mutual connections; it
 makes the peer pending -/
 theorem add_ok_iff (cfg : Config) (s : State) (p : Peer) (h : Hash) (nbrs : List Peer) :
@@ -134,18 +141,52 @@ theorem delete_active_own (s : State) (c : Conn) (hc : lookup s c.hash c.peer = 
   unfold deleteActive
   simp [hc, get_del_same]
 
-/-- For every history: a connection that replaced an older one stays active through any number of
-`DeleteActive`/conn-closed events of other connections. -/
+/-- the operations that may remove the entry of connection `id`: `DeleteActive` and the
+conn-closed event of that very connection -/
+def removes (id : ConnId) : Op → Prop
+  | .deleteActive c => c.id = id
+  | .connClosed c => c.id = id
+  | _ => False
+
+theorem step_keeps_active (cfg : Config) (s : State) (o : Op) (h' : Hash) (p' : Peer) (x : ConnId)
+    (hno : ¬ removes x o) (hl : lookup s h' p' = some (.active x)) :
+    lookup (step cfg s o) h' p' = some (.active x) := by
+  cases o with
+  | addPending p h nbrs => exact addPending_keeps_active cfg s p h nbrs h' p' x hl
+  | deletePending p h => exact deletePending_keeps_active s p h h' p' x hl
+  | moveActive c => exact move_keeps_active s c h' p' x hl
+  | deleteActive c => exact deleteActive_keeps_active s c h' p' x (by simpa [removes] using hno) hl
+  | blacklist p h => simp only [step]; rw [lookup_of_conns (blacklistOp_conns cfg s p h)]; exact hl
+  | clearBlacklist h => exact hl
+  | advance d => exact hl
+  | announceResult self h peers =>
+    exact announceResult_inv cfg self h (fun s => lookup s h' p' = some (.active x))
+      (fun s p hs => addPending_keeps_active cfg s p h [] h' p' x hs) peers s hl
+  | connClosed c =>
+    simp only [step, connClosed]
+    rw [lookup_of_conns (blacklistOp_conns cfg _ _ _)]
+    exact deleteActive_keeps_active s c h' p' x (by simpa [removes] using hno) hl
+  | failedOutgoing p h =>
+    simp only [step, failedOutgoing]
+    rw [lookup_of_conns (blacklistOp_conns cfg _ _ _)]
+    exact deletePending_keeps_active s p h h' p' x hl
+  | complete h => exact hl
+
+/-- **C16 (4b)** For every continuation of every history — any interleaving of State calls, clock
+advances and event handlers — an active connection keeps its entry until `DeleteActive` or the
+conn-closed event of that very connection: in particular a connection that replaced an older one
+to the same peer is never removed on behalf of the older one (late `DeleteActive`/conn-closed of the
+old connection, failed handshakes, announce results, … ). -/
 theorem replaced_conn_survives (cfg : Config) (s : State) (c' : Conn)
     (hc' : lookup s c'.hash c'.peer = some (.active c'.id))
-    (olds : List Conn) (hold : ∀ c ∈ olds, c.id ≠ c'.id) :
-    lookup ((sys cfg).runFrom s (olds.map Op.deleteActive)) c'.hash c'.peer = some (.active c'.id) := by
-  induction olds generalizing s with
+    (rest : List Op) (hrest : ∀ o ∈ rest, ¬ removes c'.id o) :
+    lookup ((sys cfg).runFrom s rest) c'.hash c'.peer = some (.active c'.id) := by
+  induction rest generalizing s with
   | nil => simpa [Sys.runFrom] using hc'
-  | cons c cs ih =>
-    simp only [List.map_cons, Sys.runFrom, List.foldl_cons]
-    exact ih (step cfg s (.deleteActive c)) (delete_active_identity s c c' (hold c (by simp)) hc')
-      (fun c hc => hold c (List.mem_cons_of_mem _ hc))
+  | cons o os ih =>
+    simp only [Sys.runFrom, List.foldl_cons]
+    exact ih (step cfg s o) (step_keeps_active cfg s o _ _ _ (hrest o (by simp)) hc')
+      (fun o ho => hrest o (List.mem_cons_of_mem _ ho))
 
 /-- only `MovePendingToActive` of an open connection on a pending entry activates, and it
 records that connection -/
@@ -165,32 +206,111 @@ theorem move_ok_iff (s : State) (c : Conn) :
       simp [hc, hl', get_put_same]
 
 /-- **C16 (5a)** A peer is dialled (an outgoing handshake is started by an announce result)
-only while it is not blacklisted for that torrent, and never ourselves. -/
+only while it is not blacklisted for that torrent, never ourselves, and never for a completed torrent. -/
 theorem dialled_not_blacklisted (cfg : Config) (s : State) (o : Op) (p : Peer) (h : Hash)
-    (hd : (p, h) ∈ dialled cfg s o) : blacklisted s p h = false := by
+    (hd : (p, h) ∈ dialled cfg s o) : blacklisted s p h = false ∧ s.completed.contains h = false := by
   cases o with
   | announceResult self h' peers =>
-    simp only [dialled, announceResult, List.mem_map] at hd
+    simp only [dialled, List.mem_map] at hd
     obtain ⟨q, hq, he⟩ := hd
     simp only [Prod.mk.injEq] at he
     obtain ⟨rfl, rfl⟩ := he
-    rcases (announceLoop_dialled cfg self h' peers s []).2.2 q hq with hx | ⟨_, _, hb⟩
-    · cases hx
-    · exact hb
+    have := (announceResult_dialled cfg self h' peers s).2.2 q hq
+    exact ⟨this.2.2.1, this.2.2.2⟩
   | _ => simp [dialled] at hd
 
+/-- one step keeps "(h,p) blacklisted at least until T" unless it is `ClearBlacklist(h)` or the
+completion of `h` -/
+theorem bl_step (cfg : Config) (h : Hash) (p : Peer) (T : Int) (s1 : State) (o : Op)
+    (hno : o ≠ .clearBlacklist h) (hnc : o ≠ .complete h) (hT : T ≤ s1.now + cfg.blacklistDuration)
+    (hb : BlUntil h p T s1) : BlUntil h p T (step cfg s1 o) ∧ s1.now ≤ (step cfg s1 o).now := by
+  have hclear : ∀ g, g ≠ h → BlUntil h p T (clearBlacklist s1 g) := by
+    intro g hg
+    obtain ⟨⟨e, he, hk⟩, hall⟩ := hb
+    simp only [clearBlacklist, BlUntil, List.mem_filter]
+    refine ⟨⟨e, ⟨he, ?_⟩, hk⟩, fun e' he' hk' => hall e' he'.1 hk'⟩
+    have := (bis_iff e h p).mp hk
+    simp [this.1]; exact fun e => hg e.symm
+  cases o with
+  | addPending q g nbrs =>
+    have := addPending_blacklist cfg s1 q g nbrs
+    exact ⟨blUntil_of_blacklist_eq hb this.1, by simp only [step]; omega⟩
+  | deletePending q g =>
+    simp only [step, deletePending, del]; split <;> exact ⟨hb, Int.le_refl _⟩
+  | moveActive c =>
+    simp only [step, movePendingToActive, put]
+    split
+    · exact ⟨hb, Int.le_refl _⟩
+    · split <;> exact ⟨hb, Int.le_refl _⟩
+  | deleteActive c =>
+    simp only [step, deleteActive, del]
+    split
+    · split <;> exact ⟨hb, Int.le_refl _⟩
+    · exact ⟨hb, Int.le_refl _⟩
+  | blacklist q g =>
+    exact ⟨blUntil_blacklistOp q g hb hT, by simp only [step, blacklistOp_now]; exact Int.le_refl _⟩
+  | clearBlacklist g =>
+    have hg : g ≠ h := fun e => hno (by rw [e])
+    exact ⟨hclear g hg, Int.le_refl _⟩
+  | advance d => exact ⟨hb, by simp only [step]; omega⟩
+  | announceResult self g peers =>
+    have := announceResult_dialled cfg self g peers s1
+    exact ⟨blUntil_of_blacklist_eq hb this.1, by simp only [step]; omega⟩
+  | connClosed c =>
+    have hda : (deleteActive s1 c).blacklist = s1.blacklist ∧ (deleteActive s1 c).now = s1.now := by
+      simp only [deleteActive, del]
+      split
+      · split <;> exact ⟨rfl, rfl⟩
+      · exact ⟨rfl, rfl⟩
+    refine ⟨blUntil_blacklistOp _ _ (blUntil_of_blacklist_eq hb hda.1) (by rw [hda.2]; exact hT), ?_⟩
+    simp only [step, connClosed, blacklistOp_now]; omega
+  | failedOutgoing q g =>
+    have hda : (deletePending s1 q g).blacklist = s1.blacklist ∧ (deletePending s1 q g).now = s1.now := by
+      simp only [deletePending, del]
+      split <;> exact ⟨rfl, rfl⟩
+    refine ⟨blUntil_blacklistOp _ _ (blUntil_of_blacklist_eq hb hda.1) (by rw [hda.2]; exact hT), ?_⟩
+    simp only [step, failedOutgoing, blacklistOp_now]; omega
+  | complete g =>
+    have hg : g ≠ h := fun e => hnc (by rw [e])
+    have := hclear g hg
+    exact ⟨by simpa [step, dispatcherComplete, BlUntil, clearBlacklist] using this, Int.le_refl _⟩
+
+/-- a successful `Blacklist(p,h)` at `t₀` establishes "blacklisted until `t₀ + duration`" -/
+theorem bl_established (cfg : Config) (hen : cfg.disableBlacklist = false) (s0 : State) (p : Peer) (h : Hash)
+    (hok : (blacklistOp cfg s0 p h).2 = .ok) :
+    BlUntil h p (s0.now + cfg.blacklistDuration) (step cfg s0 (.blacklist p h)) := by
+  let T := s0.now + cfg.blacklistDuration
+  have hset : BlUntil h p T (setB s0 h p T) := by
+    unfold BlUntil setB
+    refine ⟨⟨⟨h, p, T⟩, by simp, by simp [BEntry.is]⟩, ?_⟩
+    intro e he hk
+    simp only [List.mem_append, List.mem_filter, List.mem_singleton] at he
+    rcases he with ⟨_, hf⟩ | rfl
+    · simp [hk] at hf
+    · exact Int.le_refl _
+  simp only [step]
+  unfold blacklistOp at hok ⊢
+  simp only [hen] at hok ⊢
+  cases hf : findB s0 h p with
+  | none => simpa [hf] using hset
+  | some e =>
+    simp only [hf] at hok ⊢
+    by_cases hl : e.live s0.now
+    · simp [hl] at hok
+    · simpa [hl] using hset
+
 /-- **C16 (5b)** After `Blacklist(p,h)` succeeded at time `t₀`, the pair stays blacklisted in every
-later state of every history without `ClearBlacklist(h)` while `now < t₀ + BlacklistDuration`. -/
+later state of every history without `ClearBlacklist(h)` and without the completion of `h` (which
+clears the torrent's blacklist) while `now < t₀ + BlacklistDuration`. -/
 theorem blacklist_lasts (cfg : Config) (hen : cfg.disableBlacklist = false) (s0 : State) (p : Peer) (h : Hash)
-    (hok : (blacklistOp cfg s0 p h).2 = .ok) (rest : List Op) (hnc : ∀ o ∈ rest, o ≠ .clearBlacklist h) :
+    (hok : (blacklistOp cfg s0 p h).2 = .ok) (rest : List Op)
+    (hnc : ∀ o ∈ rest, o ≠ .clearBlacklist h ∧ o ≠ .complete h) :
     let s := (sys cfg).runFrom (step cfg s0 (.blacklist p h)) rest
     s.now < s0.now + cfg.blacklistDuration → blacklisted s p h = true := by
   intro s hnow
-  let T := s0.now + cfg.blacklistDuration
-  -- invariant along `rest`
-  have hinv : ∀ (ops : List Op) (s1 : State), (∀ o ∈ ops, o ≠ .clearBlacklist h) →
-      (BlUntil h p T s1 ∧ s0.now ≤ s1.now) →
-      (BlUntil h p T ((sys cfg).runFrom s1 ops) ∧ s0.now ≤ ((sys cfg).runFrom s1 ops).now) := by
+  have hinv : ∀ (ops : List Op) (s1 : State), (∀ o ∈ ops, o ≠ .clearBlacklist h ∧ o ≠ .complete h) →
+      (BlUntil h p (s0.now + cfg.blacklistDuration) s1 ∧ s0.now ≤ s1.now) →
+      (BlUntil h p (s0.now + cfg.blacklistDuration) ((sys cfg).runFrom s1 ops) ∧ s0.now ≤ ((sys cfg).runFrom s1 ops).now) := by
     intro ops
     induction ops with
     | nil => intro s1 _ h1; simpa [Sys.runFrom] using h1
@@ -198,88 +318,51 @@ theorem blacklist_lasts (cfg : Config) (hen : cfg.disableBlacklist = false) (s0 
       intro s1 hno h1
       simp only [Sys.runFrom, List.foldl_cons]
       apply ih _ (fun o ho => hno o (List.mem_cons_of_mem _ ho))
-      have hT : T ≤ s1.now + cfg.blacklistDuration := by show s0.now + _ ≤ _; omega
-      obtain ⟨hb, hn⟩ := h1
-      show BlUntil h p T (step cfg s1 o) ∧ s0.now ≤ (step cfg s1 o).now
-      cases o with
-      | addPending q g nbrs =>
-        have := addPending_blacklist cfg s1 q g nbrs
-        exact ⟨blUntil_of_blacklist_eq hb this.1, by simp only [step]; omega⟩
-      | deletePending q g =>
-        simp only [step, deletePending, del]; split <;> exact ⟨hb, hn⟩
-      | moveActive c =>
-        simp only [step, movePendingToActive, put]
-        split
-        · exact ⟨hb, hn⟩
-        · split <;> exact ⟨hb, hn⟩
-      | deleteActive c =>
-        simp only [step, deleteActive, del]
-        split
-        · split <;> exact ⟨hb, hn⟩
-        · exact ⟨hb, hn⟩
-      | blacklist q g =>
-        exact ⟨blUntil_blacklistOp q g hb hT, by simp only [step, blacklistOp_now]; exact hn⟩
-      | clearBlacklist g =>
-        have hg : g ≠ h := fun e => hno (.clearBlacklist g) (by simp) (by rw [e])
-        refine ⟨?_, hn⟩
-        obtain ⟨⟨e, he, hk⟩, hall⟩ := hb
-        simp only [step, clearBlacklist, BlUntil, List.mem_filter]
-        refine ⟨⟨e, ⟨he, ?_⟩, hk⟩, fun e' he' hk' => hall e' he'.1 hk'⟩
-        have := (bis_iff e h p).mp hk
-        simp [this.1]; exact fun e => hg e.symm
-      | advance d => exact ⟨hb, by simp only [step]; omega⟩
-      | announceResult self g peers =>
-        have := announceLoop_dialled cfg self g peers s1 []
-        exact ⟨blUntil_of_blacklist_eq hb this.1, by simp only [step, announceResult]; omega⟩
-      | connClosed c =>
-        have hda : (deleteActive s1 c).blacklist = s1.blacklist ∧ (deleteActive s1 c).now = s1.now := by
-          simp only [deleteActive, del]
-          split
-          · split <;> exact ⟨rfl, rfl⟩
-          · exact ⟨rfl, rfl⟩
-        refine ⟨blUntil_blacklistOp _ _ (blUntil_of_blacklist_eq hb hda.1) (by rw [hda.2]; exact hT), ?_⟩
-        simp only [step, connClosed, blacklistOp_now]; omega
-      | failedOutgoing q g =>
-        have hda : (deletePending s1 q g).blacklist = s1.blacklist ∧ (deletePending s1 q g).now = s1.now := by
-          simp only [deletePending, del]
-          split <;> exact ⟨rfl, rfl⟩
-        refine ⟨blUntil_blacklistOp _ _ (blUntil_of_blacklist_eq hb hda.1) (by rw [hda.2]; exact hT), ?_⟩
-        simp only [step, failedOutgoing, blacklistOp_now]; omega
-  -- the successful Blacklist call establishes it
-  have h0 : BlUntil h p T (step cfg s0 (.blacklist p h)) ∧ s0.now ≤ (step cfg s0 (.blacklist p h)).now := by
-    refine ⟨?_, by simp only [step, blacklistOp_now]; omega⟩
-    have hset : BlUntil h p T (setB s0 h p T) := by
-      unfold BlUntil setB
-      refine ⟨⟨⟨h, p, T⟩, by simp, by simp [BEntry.is]⟩, ?_⟩
-      intro e he hk
-      simp only [List.mem_append, List.mem_filter, List.mem_singleton] at he
-      rcases he with ⟨_, hf⟩ | rfl
-      · simp [hk] at hf
-      · exact Int.le_refl _
-    simp only [step]
-    unfold blacklistOp at hok ⊢
-    simp only [hen] at hok ⊢
-    cases hf : findB s0 h p with
-    | none => simpa [hf] using hset
-    | some e =>
-      simp only [hf] at hok ⊢
-      by_cases hl : e.live s0.now
-      · simp [hl] at hok
-      · simpa [hl] using hset
-  exact blUntil_blacklisted (hinv rest _ hnc h0).1 hnow
+      have := bl_step cfg h p _ s1 o (hno o (by simp)).1 (hno o (by simp)).2 (by omega) h1.1
+      exact ⟨this.1, by show s0.now ≤ (step cfg s1 o).now; omega⟩
+  have h0 := bl_established cfg hen s0 p h hok
+  have hn0 : s0.now ≤ (step cfg s0 (.blacklist p h)).now := by simp only [step, blacklistOp_now]; omega
+  exact blUntil_blacklisted (hinv rest _ hnc ⟨h0, hn0⟩).1 hnow
 
 /-- **C16 (5)** Blacklisted peers are not dialled until their blacklist expires: after a successful
-`Blacklist(p,h)` at `t₀`, no operation of any later history (without `ClearBlacklist(h)`, i.e. the
-torrent being removed) dials `p` for `h` while `now < t₀ + BlacklistDuration`. -/
+`Blacklist(p,h)` at `t₀`, no operation of any later history dials `p` for `h` while
+`now < t₀ + BlacklistDuration` — also across the torrent's completion (`dispatcherCompleteEvent`
+clears the torrent's blacklist, but a completed torrent opens no connections).  The only excluded
+operation is a bare `State.ClearBlacklist(h)`, which no production code path performs. -/
 theorem blacklisted_not_dialled (cfg : Config) (hen : cfg.disableBlacklist = false) (s0 : State) (p : Peer) (h : Hash)
     (hok : (blacklistOp cfg s0 p h).2 = .ok) (rest : List Op) (hnc : ∀ o ∈ rest, o ≠ .clearBlacklist h) (o : Op) :
     let s := (sys cfg).runFrom (step cfg s0 (.blacklist p h)) rest
     s.now < s0.now + cfg.blacklistDuration → (p, h) ∉ dialled cfg s o := by
   intro s hnow hd
-  have h1 := blacklist_lasts cfg hen s0 p h hok rest hnc hnow
+  have hinv : ∀ (ops : List Op) (s1 : State), (∀ o ∈ ops, o ≠ .clearBlacklist h) →
+      ((BlUntil h p (s0.now + cfg.blacklistDuration) s1 ∧ s0.now ≤ s1.now) ∨ h ∈ s1.completed) →
+      ((BlUntil h p (s0.now + cfg.blacklistDuration) ((sys cfg).runFrom s1 ops) ∧ s0.now ≤ ((sys cfg).runFrom s1 ops).now) ∨
+        h ∈ ((sys cfg).runFrom s1 ops).completed) := by
+    intro ops
+    induction ops with
+    | nil => intro s1 _ h1; simpa [Sys.runFrom] using h1
+    | cons o os ih =>
+      intro s1 hno h1
+      simp only [Sys.runFrom, List.foldl_cons]
+      apply ih _ (fun o ho => hno o (List.mem_cons_of_mem _ ho))
+      show (BlUntil h p _ (step cfg s1 o) ∧ s0.now ≤ (step cfg s1 o).now) ∨ h ∈ (step cfg s1 o).completed
+      rcases h1 with ⟨hb, hn⟩ | hc
+      · by_cases hco : o = .complete h
+        · right; subst hco; simp [step, dispatcherComplete, clearBlacklist]
+        · left
+          have := bl_step cfg h p _ s1 o (hno o (by simp)) hco (by omega) hb
+          exact ⟨this.1, by omega⟩
+      · exact .inr (completed_mono cfg s1 o h hc)
+  have h0 := bl_established cfg hen s0 p h hok
+  have hn0 : s0.now ≤ (step cfg s0 (.blacklist p h)).now := by simp only [step, blacklistOp_now]; omega
   have h2 := dialled_not_blacklisted cfg s o p h hd
-  rw [h1] at h2
-  cases h2
+  rcases hinv rest _ hnc (.inl ⟨h0, hn0⟩) with ⟨hb, _⟩ | hc
+  · have h1 := blUntil_blacklisted hb hnow
+    rw [h1] at h2
+    cases h2.1
+  · have : s.completed.contains h = true := by simpa using hc
+    rw [this] at h2
+    cases h2.2
 
 /-- the blacklist does expire: `Blacklisted` is exactly "an entry exists and `expiration > now`" -/
 theorem blacklisted_iff (s : State) (p : Peer) (h : Hash) :
@@ -306,5 +389,11 @@ example : (addPending exCfg ((sys exCfg).run (exOps.take 4)) 3 0 []).2 = .atCapa
 example : blacklisted ((sys exCfg).run (exOps.take 10)) 3 0 = true := by decide
 example : dialled exCfg ((sys exCfg).run ((exOps.take 10) ++ [.deletePending 2 0])) (.announceResult 9 0 [3, 4]) = [(4, 0)] := by decide
 example : dialled exCfg ((sys exCfg).run ((exOps.take 10) ++ [.deletePending 2 0, .advance 1])) (.announceResult 9 0 [3, 4]) = [(3, 0)] := by decide
+
+-- completion: the blacklist of the torrent is cleared, and it does not dial any more
+example : blacklisted ((sys exCfg).run ((exOps.take 10) ++ [.complete 0])) 3 0 = false := by decide
+example : dialled exCfg ((sys exCfg).run ((exOps.take 10) ++ [.deletePending 2 0, .complete 0])) (.announceResult 9 0 [3, 4]) = [] := by decide
+example : lookup ((sys exCfg).runFrom ((sys exCfg).run (exOps.take 7))
+    [.connClosed ⟨7, 0, 1, false⟩, .failedOutgoing 1 0, .announceResult 9 0 [1, 2], .complete 0]) 0 1 = some (.active 8) := by decide
 
 end KrakenModel.Spec.C16
